@@ -1,10 +1,23 @@
 """C01 — unit / mode / basis conversions.
 
-Tie: generated tables (translator) + exhaustive correspondence of Model/Units.lean (driver at α = ℚ)
-with pygaps.units.converter_mode on every ordered pair of representations.
-Failing-input search: the independent SI oracle below (exact fractions) against the implementation
-on the same exhaustive enumeration; it runs on every run, so a broken proof always comes with the
-concrete conversion that is now wrong, if there is one.
+Tie: generated tables (translator) + exhaustive correspondence of Model/Units.lean and Model/UnitsObj.lean (driver
+Drv/Units.lean at α = ℚ: every line is one `Req`, answered by `Req.run`) with pygaps.units.converter_mode / converter_unit,
+`Adsorbate.saturation_pressure(T, unit)` and real `pygaps.Material` objects on every ordered pair of representations.
+
+Failing-input search (runs on every run, so a broken proof / translation always comes with the concrete conversion that is
+now wrong, if there is one):
+  * the independent SI oracle below (exact fractions) against the implementation on the same exhaustive enumeration; the
+    adsorbate constants of the oracle come from the literals the stub adsorbates were built with and, for real adsorbates,
+    from CoolProp states of the harness's own (random temperatures between triple and critical point), not from the accessors;
+  * the HISTORY oracle: the reply to a call must not depend on what was converted before.  Every pair of unit strings that
+    is valid in one unit table is asked against every OTHER table through every public entry point (c_unit, c_pressure,
+    c_loading, c_material, Adsorbate.saturation_pressure, isotherm accessors) in a fresh process state ("fresh"), then the
+    whole exhaustive enumeration runs, then blocks [valid conversion of (a, b) in its own table; the same strings against
+    every other table; the valid conversion again] run in shuffled order mixed with re-checks of earlier valid conversions
+    ("after"): refusals must stay parameter errors, factors must stay the SI factors and equal to the first answer;
+  * the MATERIAL oracle: real `pygaps.Material` objects (all with the same name) built by random histories of constructor
+    keywords, setters (incl. the ignored falsy values), `to_dict` round trips, changed between conversions, passed through
+    c_material and get_prop, compared with the SI factor for the numbers that were put in and with the Lean model of the store.
 """
 import itertools
 from decimal import Decimal
@@ -22,35 +35,76 @@ GRAM = {"amu": D("1.66054e-27"), "mg": D("1e-3"), "cg": D("1e-2"), "dg": D("0.1"
 CM3 = {"cm3": D("1"), "mL": D("1"), "cc": D("1"), "dm3": D("1e3"), "L": D("1e3"), "m3": D("1e6")}
 LTABLE = {"molar": MOL, "mass": GRAM, "volume_gas": CM3, "volume_liquid": CM3}
 MTABLE = {"mass": GRAM, "volume": CM3, "molar": MOL}
+# the four quantities a unit can belong to, and which one every loading / material basis needs
+TABLES = {"pressure": PA, "molar": MOL, "mass": GRAM, "volume": CM3}
+LB_TABLE = {"molar": "molar", "mass": "mass", "volume_gas": "volume", "volume_liquid": "volume"}
+MB_TABLE = {"mass": "mass", "volume": "volume", "molar": "molar"}
+CODE_TABLE_NAME = {"pressure": "_PRESSURE_UNITS", "molar": "_MOLAR_UNITS", "mass": "_MASS_UNITS", "volume": "_VOLUME_UNITS"}
+PMODES = ("absolute", "relative", "relative%")
+LBASES = ("mass", "volume_gas", "volume_liquid", "molar", "percent", "fraction")
+MBASES = ("mass", "volume", "molar")
 
 PRESS = [("absolute", u) for u in PA] + [("relative", None), ("relative%", None)]
 LOAD = [(b, u) for b in ("molar", "mass", "volume_gas", "volume_liquid") for u in LTABLE[b]] + [("fraction", None), ("percent", None)]
 MATS = [(b, u) for b in ("mass", "volume", "molar") for u in MTABLE[b]]
 TEMPS = ["K", "°C", "C", "c", "celsius", "Celsius", "degC"]
 QORDER = ["gas_density", "liquid_density", "molar_mass", "gas_molar_density", "liquid_molar_density"]
+# CoolProp fluid names written here (the registry that maps pyGAPS names to backends is C20's subject)
+COOLPROP_NAME = {"N2": "Nitrogen", "CO2": "CarbonDioxide", "Ar": "Argon", "CH4": "Methane", "H2O": "Water",
+                 "C4H10": "n-Butane", "NH3": "Ammonia", "Kr": "Krypton"}
+
+
+def coolprop_constants(cpname, temp):
+    """saturation pressure [Pa], densities [g/cm3, mol/cm3], molar mass [g/mol] from CoolProp states of our own"""
+    import CoolProp as CP
+    liq = CP.AbstractState("HEOS", cpname)
+    liq.update(CP.QT_INPUTS, 0.0, temp)
+    gas = CP.AbstractState("HEOS", cpname)
+    gas.update(CP.QT_INPUTS, 1.0, temp)
+    return {"psat": liq.p(), "gas_density": gas.rhomass() / 1000, "liquid_density": liq.rhomass() / 1000,
+            "molar_mass": liq.molar_mass() * 1000, "gas_molar_density": gas.rhomolar() / 1e6,
+            "liquid_molar_density": liq.rhomolar() / 1e6}
+
+
+def coolprop_range(cpname):
+    import CoolProp as CP
+    return CP.CoolProp.PropsSI("Ttriple", cpname), CP.CoolProp.PropsSI("Tcrit", cpname)
 
 
 class Props:
-    """The constants of one (adsorbate, material, temperature): exact fractions or None."""
+    """The constants of one (adsorbate, material, temperature): exact fractions or None.
 
-    def __init__(self, name, ads, mat, temp, pg):
-        self.name, self.ads, self.mat, self.temp = name, ads, mat, temp
+    `known`: the constants from a source independent of the accessors (constructor literals, own CoolProp states); when
+    given they are the oracle's constants and the accessor values (`self.acc`) are compared with them by the caller.
+    `matknown`: (density, molar mass) the material was built with."""
+
+    def __init__(self, name, ads, mat, temp, pg, known=None, matknown=None, light=False):
+        self.name, self.ads, self.mat, self.temp, self.light = name, ads, mat, temp, light
 
         def get(f):
             try:
                 return frac(f())
             except pg.utilities.exceptions.pgError:
                 return None
-        self.psat = get(lambda: ads.saturation_pressure(temp))
-        self.q = {
+            except Exception:  # noqa  anything else is no value either; the comparison with the independent constants reports it
+                return None
+        self.acc = {
+            "psat": get(lambda: ads.saturation_pressure(temp)),
             "gas_density": get(lambda: ads.gas_density(temp=temp)),
             "liquid_density": get(lambda: ads.liquid_density(temp=temp)),
             "molar_mass": get(lambda: ads.molar_mass()),
             "gas_molar_density": get(lambda: ads.gas_molar_density(temp=temp)),
             "liquid_molar_density": get(lambda: ads.liquid_molar_density(temp=temp)),
         }
-        self.md = None if mat is None or mat.density is None else frac(mat.density)
-        self.mm = None if mat is None or mat.molar_mass is None else frac(mat.molar_mass)
+        src = self.acc if known is None else {k: (None if v is None else frac(v)) for k, v in known.items()}
+        self.known = known is not None
+        self.psat = src["psat"]
+        self.q = {k: src[k] for k in QORDER}
+        if matknown is not None:
+            self.md, self.mm = [None if x is None else frac(x) for x in matknown]
+        else:
+            self.md = None if mat is None or mat.density is None else frac(mat.density)
+            self.mm = None if mat is None or mat.molar_mass is None else frac(mat.molar_mass)
 
     def env_tokens(self):
         return [tok(self.q[k]) for k in QORDER] + [tok(self.md), tok(self.mm)]
@@ -84,27 +138,342 @@ def call(f, *a, **k):
         return ("err", err_class(e))
 
 
+class Rq:
+    """One call of a public entry point: `factor` = exact SI factor the input must be multiplied by, None = the call must be
+    refused with a parameter error.  `line` = the same request for the Lean driver (None: not modelled)."""
+    __slots__ = ("desc", "thunk", "line", "entry", "table", "factor", "vin", "meta", "soft")
+
+    def __init__(self, desc, thunk, line, entry, table=None, factor=None, vin=1.0, meta=None, soft=False):
+        self.desc, self.thunk, self.line, self.entry, self.table = desc, thunk, line, entry, table
+        self.factor, self.vin, self.meta, self.soft = factor, vin, meta, soft
+
+
+class Groups:
+    """Failing cases of the sequence oracles, reported once per group (first witness + number of cases) so that a defect
+    which breaks thousands of requests writes a handful of replay files."""
+
+    def __init__(self, ck):
+        self.ck, self.g = ck, {}
+
+    def add(self, gkey, sig, detail):
+        e = self.g.get(gkey)
+        if e is None:
+            self.g[gkey] = [sig, detail, 1]
+        else:
+            e[2] += 1
+
+    def flush(self):
+        for sig, detail, n in self.g.values():
+            d = dict(detail)
+            d["failing_cases_in_this_group"] = n
+            self.ck.fail_case(sig, d)
+        self.g = {}
+
+
 def run(ck):
     pg = import_pygaps()
     import numpy as np
     import pandas as pd
+    from pygaps.units import converter_unit as cu_mod
     from pygaps.units.converter_mode import c_loading, c_material, c_pressure, c_temperature
     rng = ck.rng
     thorough = ck.tier == "thorough"
+    groups = Groups(ck)
+    xlines = []     # extra driver requests (beyond `cases`): (line, [(label, kind, val)], nontrivial?)
+
+    def value_matches(val, vin, factor, rel=1e-11):
+        """implementation result for input `vin` (scalar / ndarray / Series) = vin * factor pointwise, container kept"""
+        try:
+            if isinstance(vin, pd.Series):
+                return isinstance(val, pd.Series) and list(val.index) == list(vin.index) and \
+                    all(close(x, frac(y) * factor, rel=rel) for x, y in zip(val.values, vin.values))
+            if isinstance(vin, np.ndarray):
+                arr = np.asarray(val, dtype=float)
+                return arr.shape == vin.shape and all(close(x, frac(y) * factor, rel=rel) for x, y in zip(arr, vin))
+            return np.ndim(val) == 0 and close(val, frac(vin) * factor, rel=rel)
+        except (TypeError, ValueError, OverflowError):
+            return False
+
+    def same_outcome(o1, o2):
+        """two outcomes of the SAME call at two moments of the process"""
+        if o1[0] != o2[0]:
+            return False
+        if o1[0] == "err":
+            return o1[1] == o2[1]
+        try:
+            a, b = np.asarray(o1[1], dtype=float), np.asarray(o2[1], dtype=float)
+            return a.shape == b.shape and all(close(x, y, rel=1e-13) for x, y in zip(a.ravel(), b.ravel()))
+        except (TypeError, ValueError, OverflowError):
+            return False
+
+    def short(o):
+        return [o[0], str(o[1])[:160]]
 
     # ------------------------------------------------------------------ adsorbates / materials
-    stub = pg.Adsorbate("pgv_stub", store=False, molar_mass=28.5, saturation_pressure=123456.0, liquid_density=0.81,
-                        gas_density=0.0047, liquid_molar_density=0.81 / 28.5, gas_molar_density=0.0047 / 28.5)
+    STUB = dict(molar_mass=28.5, saturation_pressure=123456.0, liquid_density=0.81, gas_density=0.0047,
+                liquid_molar_density=0.81 / 28.5, gas_molar_density=0.0047 / 28.5)
+    STUB2 = dict(molar_mass=44.25, saturation_pressure=98765.5, liquid_density=1.125, gas_density=0.0021,
+                 liquid_molar_density=1.125 / 44.25, gas_molar_density=0.0021 / 44.25)
+
+    def known_of(d):
+        return {"psat": d.get("saturation_pressure"), **{k: d.get(k) for k in QORDER}}
+    stub = pg.Adsorbate("pgv_stub", store=False, **STUB)
+    # a second adsorbate with the SAME name (Adsorbate hashes and compares by name): a result remembered per adsorbate is wrong for it
+    stub2 = pg.Adsorbate("pgv_stub", store=False, **STUB2)
     nodens = pg.Adsorbate("pgv_nodens", store=False, molar_mass=30.0, saturation_pressure=5e4)
     mat = pg.Material("pgv_mat", store=False, density=2.3, molar_mass=321.0)
     mat_bare = pg.Material("pgv_bare", store=False)
-    contexts = [Props("stub", stub, mat, 77.0, pg)]
+    contexts = [Props("stub", stub, mat, 77.0, pg, known=known_of(STUB), matknown=(2.3, 321.0))]
     real = [("N2", 77.355), ("CO2", 273.15), ("Ar", 87.3)]
     if thorough:
         real += [("N2", 100.0), ("CH4", 111.0), ("H2O", 298.15), ("C4H10", 273.0), ("NH3", 250.0), ("Kr", 120.0)]
-    for name, t in real:
-        contexts.append(Props(f"{name}@{t}", pg.Adsorbate.find(name), mat, t, pg))
-    ctx_nodens = Props("nodens", nodens, mat_bare, 77.0, pg)
+    # random temperatures between triple and critical point (any number of decimals), incl. one adsorbate at two temperatures
+    rnd = [n for n, _ in real[:3]] + [real[0][0]] + ([n for n, _ in real[3:]] if thorough else [])
+    real_ctx = [(n, t, False) for n, t in real]
+    for n in rnd:
+        lo, hi = coolprop_range(COOLPROP_NAME[n])
+        real_ctx.append((n, lo + (hi - lo) * rng.uniform(0.05, 0.9), True))
+    for name, t, light in real_ctx:
+        contexts.append(Props(f"{name}@{t!r}" if light else f"{name}@{t}", pg.Adsorbate.find(name), mat, t, pg,
+                              known=coolprop_constants(COOLPROP_NAME[name], t), matknown=(2.3, 321.0), light=light))
+    contexts.append(Props("stub2", stub2, mat, 77.0, pg, known=known_of(STUB2), matknown=(2.3, 321.0), light=True))
+    ctx_nodens = Props("nodens", nodens, mat_bare, 77.0, pg, known=known_of(dict(molar_mass=30.0, saturation_pressure=5e4)),
+                       matknown=(None, None))
+    # the accessors the converters read = the independent constants (stale thermodynamic state, wrong phase, unit slip ...)
+    for cxx in contexts + [ctx_nodens]:
+        for k, v in cxx.acc.items():
+            exp = cxx.psat if k == "psat" else cxx.q[k]
+            ck.count(("const", cxx.name, k), bucket="constant")
+            if (v is None) != (exp is None) or (v is not None and not close(v, exp, rel=1e-12)):
+                ck.fail_case({"fn": "constant", "quantity": k, "adsorbate": cxx.name.split("@")[0]},
+                             {"adsorbate": cxx.name, "temperature": cxx.temp, "accessor": None if v is None else float(v),
+                              "independent": None if exp is None else float(exp),
+                              "what": "Adsorbate accessor read by the converters differs from the constant it was built with / CoolProp"})
+    cx = contexts[0]
+    A, M, T = cx.ads, cx.mat, cx.temp
+
+    # ------------------------------------------------------------------ HISTORY oracle: the requests
+    CODE = {}
+    for ty, attr in CODE_TABLE_NAME.items():
+        CODE[ty] = getattr(cu_mod, attr, None)
+    c_unit = getattr(cu_mod, "c_unit", None)
+    if c_unit is None or any(v is None for v in CODE.values()):
+        ck.broken.append({"step": "entry points", "what": "converter_unit.c_unit or a unit table is missing"})
+    VK = [lambda: 1.0, lambda: 3, lambda: np.float64(0.37), lambda: np.array([1.0, 2.5, -4.0]),
+          lambda: pd.Series([1.0, 2.5, 0.125], index=[4, 9, 2])]
+    VKN = ["1.0", "3", "numpy.float64(0.37)", "numpy.array([1.0, 2.5, -4.0])", "pandas.Series([1.0, 2.5, 0.125], index=[4, 9, 2])"]
+    counter = itertools.count()
+
+    def vk():
+        i = next(counter) % len(VK)
+        return VK[i](), VKN[i]
+
+    envt = cx.env_tokens()
+
+    def rq_unit(ty, a, b, sign, factor):
+        v, vn = vk()
+        return Rq(f"c_unit({CODE_TABLE_NAME[ty]}, {vn}, {a!r}, {b!r}, sign={sign})",
+                  (lambda: c_unit(CODE[ty], v, a, b, sign)), " ".join(["cU", ty, "1/1", tok(a), tok(b), str(sign)]),
+                  "c_unit", ty, factor, v, meta="pair")
+
+    def rq_pressure(mf, mt, uf, ut, factor, entry):
+        v, vn = vk()
+        return Rq(f"c_pressure({vn}, {mf!r}, {mt!r}, {uf!r}, {ut!r}, <pgv_stub p_sat={STUB['saturation_pressure']}>, {T})",
+                  (lambda: c_pressure(v, mf, mt, uf, ut, A, T)),
+                  " ".join(["cP", tok(cx.psat), "T", "1/1", tok(mf), tok(mt), tok(uf), tok(ut)]), entry, "pressure", factor, v,
+                  meta="pair" if entry.endswith(":unit") else None)
+
+    def rq_satp(u, factor):
+        fn = rng.choice(["saturation_pressure", "pressure_saturation"])     # the documented alias too
+        return Rq(f"<pgv_stub p_sat={STUB['saturation_pressure']}>.{fn}({T}, unit={u!r})",
+                  (lambda: getattr(A, fn)(T, unit=u)), " ".join(["cS", tok(cx.psat), tok(u)]),
+                  "saturation_pressure", "pressure", factor, cx.psat)
+
+    def rq_loading(bf, bt, uf, ut, mb, mu, factor, entry, ty):
+        v, vn = vk()
+        return Rq(f"c_loading({vn}, {bf!r}, {bt!r}, {uf!r}, {ut!r}, <pgv_stub>, {T}, {mb!r}, {mu!r})",
+                  (lambda: c_loading(v, bf, bt, uf, ut, A, T, mb, mu)),
+                  " ".join(["cL"] + envt + ["1/1"] + [tok(x) for x in (bf, bt, uf, ut, mb, mu)]), entry, ty, factor, v,
+                  meta="pair" if entry.endswith(":unit") else None)
+
+    def rq_material(bf, bt, uf, ut, factor, entry, ty):
+        v, vn = vk()
+        return Rq(f"c_material({vn}, {bf!r}, {bt!r}, {uf!r}, {ut!r}, <Material density=2.3 molar_mass=321.0>)",
+                  (lambda: c_material(v, bf, bt, uf, ut, M)),
+                  " ".join(["cM"] + envt + ["1/1"] + [tok(x) for x in (bf, bt, uf, ut)]), entry, ty, factor, v,
+                  meta="pair" if entry.endswith(":unit") else None)
+
+    def other(seq, x):
+        return rng.choice([y for y in seq if y != x])
+
+    def own_requests(tx, a, b):
+        """valid conversions of the ordered pair (a, b) through every entry point of its own table"""
+        t = TABLES[tx]
+        r = t[a] / t[b]
+        out = [rq_unit(tx, a, b, 1, r), rq_unit(tx, a, b, -1, 1 / r)]
+        if tx == "pressure":
+            out.append(rq_pressure("absolute", "absolute", a, b, r, "c_pressure:unit"))
+            out.append(rq_satp(b, 1 / PA[b]))
+        for B, tb in LB_TABLE.items():
+            if tb == tx:
+                out.append(rq_loading(B, B, a, b, *rng.choice([("mass", "g"), (None, None)]), r, "c_loading:unit", tx))
+        for B, tb in MB_TABLE.items():
+            if tb == tx:
+                out.append(rq_material(B, B, a, b, 1 / r, "c_material:unit", tx))
+        return out
+
+    def foreign_requests(tx, a, b):
+        """the same two strings where a unit of another quantity is needed: every other table, every entry point"""
+        out = []
+        for ty in TABLES:
+            if ty == tx:
+                continue
+            out.append(rq_unit(ty, a, b, rng.choice((1, -1)), None))
+            if ty == "pressure":
+                out.append(rq_pressure("absolute", "absolute", a, b, None, "c_pressure:unit"))
+                out.append(rq_pressure("absolute", rng.choice(PMODES[1:]), a, None, None, "c_pressure:mode"))
+                out.append(rq_pressure(rng.choice(PMODES[1:]), "absolute", None, b, None, "c_pressure:mode"))
+                out.append(rq_satp(b, None))
+            for B, tb in LB_TABLE.items():
+                if tb == ty:
+                    out.append(rq_loading(B, B, a, b, "mass", "g", None, "c_loading:unit", ty))
+                    B2 = other(list(LB_TABLE), B)
+                    out.append(rq_loading(B, B2, a, rng.choice(list(LTABLE[B2])), "mass", "g", None, "c_loading:basis", ty))
+                    out.append(rq_loading(B2, B, rng.choice(list(LTABLE[B2])), b, "mass", "g", None, "c_loading:basis", ty))
+            for B, tb in MB_TABLE.items():
+                if tb == ty:
+                    out.append(rq_material(B, B, a, b, None, "c_material:unit", ty))
+                    B2 = other(MBASES, B)
+                    out.append(rq_material(B, B2, a, rng.choice(list(MTABLE[B2])), None, "c_material:basis", ty))
+                    out.append(rq_material(B2, B, rng.choice(list(MTABLE[B2])), b, None, "c_material:basis", ty))
+        return out
+
+    def basis_requests():
+        """a mode / basis that is valid for another kind of quantity (or for none) where a pressure mode, a loading basis,
+        a material basis is needed"""
+        out = []
+        for x in sorted(set(LBASES + MBASES)):
+            out.append(rq_pressure(x, "absolute", "bar", "bar", None, "c_pressure:foreign-mode"))
+            out.append(rq_pressure("relative", x, None, None, None, "c_pressure:foreign-mode"))
+        for x in PMODES + ("volume",):
+            out.append(rq_loading(x, "molar", "g", "mmol", "mass", "g", None, "c_loading:foreign-basis", None))
+            out.append(rq_loading("mass", x, "g", "g", "mass", "g", None, "c_loading:foreign-basis", None))
+        for x in PMODES + ("volume_gas", "volume_liquid", "percent", "fraction"):
+            out.append(rq_material(x, "mass", "g", "g", None, "c_material:foreign-basis", None))
+            out.append(rq_material("volume", x, "cm3", "cm3", None, "c_material:foreign-basis", None))
+        return out
+
+    blocks = []    # (tx, a, b, own, foreign)
+    for tx, t in TABLES.items():
+        for a, b in itertools.permutations(t, 2):
+            blocks.append((tx, a, b, own_requests(tx, a, b), foreign_requests(tx, a, b)))
+    basis_rqs = basis_requests()
+    fresh = {}       # id(Rq) -> first outcome
+    model_of = {}    # id(Rq) -> index into xlines
+
+    def model_line(r, o):
+        if r.line is None:
+            return
+        i = model_of.get(id(r))
+        if i is None:
+            model_of[id(r)] = len(xlines)
+            xlines.append([r.line, [], r.factor is not None, r])
+            i = len(xlines) - 1
+        xlines[i][1].append(o)
+
+    def judge(r, o, phase, before=None):
+        """one executed request against the property (not the model)"""
+        kind, val = o
+        key = (r.entry, r.table, r.desc)
+        if r.factor is None:
+            ck.count(("hist", phase) + key, nontrivial=False, bucket=f"history:{phase}:refusal:" + (val if kind == "err" else "NUMBER"))
+            if not (kind == "err" and val == "param"):
+                sig = {"fn": "foreign-unit" if "foreign" not in r.entry else "foreign-basis", "entry": r.entry, "needed": r.table,
+                       "phase": phase, "outcome": val if kind == "err" else "number"}
+                det = {"call": r.desc, "implementation": short(o), "expected": "ParameterError"}
+                if phase == "after":
+                    det["refused_in_fresh_process_state"] = fresh.get(id(r), ("?", "?"))[0] == "err"
+                    det["preceded_by_valid_conversion"] = before
+                groups.add((sig["fn"], r.entry, r.table, phase), sig, det)
+        else:
+            ck.count(("hist", phase) + key, nontrivial=phase == "after", bucket=f"history:{phase}:valid:" + (kind if kind == "ok" else val))
+            good = kind == "ok" and value_matches(val, r.vin, r.factor)
+            if not good:
+                sig = {"fn": "history-factor", "entry": r.entry, "table": r.table, "phase": phase}
+                groups.add(("factor", r.entry, r.table, phase), sig,
+                           {"call": r.desc, "implementation": short(o), "expected_factor_SI": str(float(r.factor)),
+                            "preceded_by": before})
+
+    # ---- phase "fresh": nothing has been converted yet in this process
+    if c_unit is not None:
+        for r in basis_rqs + [r for blk in blocks for r in blk[4]]:
+            o = call(r.thunk)
+            fresh[id(r)] = o
+            model_line(r, o)
+            judge(r, o, "fresh")
+        groups.flush()
+
+    # ------------------------------------------------------------------ isotherm accessors (same oracle, through the accessor glue)
+    iso_rqs, iso_first = [], {}
+    try:
+        cxi = contexts[1]     # N2 at the first fixed temperature
+        pg.Material("pgv_iso_mat", store=True, density=2.3, molar_mass=321.0)
+        P0, L0 = [0.1, 0.2, 0.5, 0.9], [1.0, 2.0, 3.0, 3.5]
+        iso = pg.PointIsotherm(pressure=P0, loading=L0, material="pgv_iso_mat", adsorbate="N2", temperature=cxi.temp,
+                               pressure_mode="absolute", pressure_unit="bar", loading_basis="molar", loading_unit="mmol",
+                               material_basis="mass", material_unit="g", temperature_unit="K")
+        for (m, u) in PRESS:
+            iso_rqs.append(Rq(f"iso.pressure(pressure_mode={m!r}, pressure_unit={u!r})",
+                              (lambda m=m, u=u: iso.pressure(pressure_mode=m, pressure_unit=u)), None, "iso.pressure", None,
+                              cxi.scale_p("absolute", "bar") / cxi.scale_p(m, u), np.array(P0)))
+        for (b, u) in LOAD:
+            iso_rqs.append(Rq(f"iso.loading(loading_basis={b!r}, loading_unit={u!r})",
+                              (lambda b=b, u=u: iso.loading(loading_basis=b, loading_unit=u)), None, "iso.loading", None,
+                              cxi.scale_l("molar", "mmol", "mass", "g") / cxi.scale_l(b, u, "mass", "g"), np.array(L0)))
+        for (b, u) in MATS:
+            iso_rqs.append(Rq(f"iso.loading(material_basis={b!r}, material_unit={u!r})",
+                              (lambda b=b, u=u: iso.loading(material_basis=b, material_unit=u)), None, "iso.loading:material", None,
+                              cxi.grams(b, u) / cxi.grams("mass", "g"), np.array(L0)))
+        for ty, t in TABLES.items():
+            for u in t:
+                if ty != "pressure":
+                    iso_rqs.append(Rq(f"iso.pressure(pressure_unit={u!r})", (lambda u=u: iso.pressure(pressure_unit=u)),
+                                      None, "iso.pressure", "pressure", None, soft=True))
+                if ty != "molar":
+                    iso_rqs.append(Rq(f"iso.loading(loading_unit={u!r})", (lambda u=u: iso.loading(loading_unit=u)),
+                                      None, "iso.loading", "molar", None, soft=True))
+                if ty != "mass":
+                    iso_rqs.append(Rq(f"iso.loading(material_unit={u!r})", (lambda u=u: iso.loading(material_unit=u)),
+                                      None, "iso.loading:material", "mass", None, soft=True))
+    except Exception as e:  # noqa  the isotherm could not be built: not this property's subject, but say so
+        ck.notes.append(f"C01 isotherm-accessor block skipped: {type(e).__name__}: {e}")
+        iso_rqs = []
+
+    def run_iso(phase):
+        for r in iso_rqs:
+            o = call(r.thunk)
+            kind, val = o
+            ck.count(("iso", phase, r.desc), nontrivial=r.factor is not None and phase == "fresh",
+                     bucket=f"isotherm:{phase}:" + (kind if kind == "ok" else val))
+            if r.factor is None:
+                # the accessors wrap a refused pressure conversion into a CalculationError: both are refusals
+                if not (kind == "err" and val in ("param", "calc")):
+                    groups.add(("iso-ref", r.entry, phase),
+                               {"fn": "foreign-unit", "entry": r.entry, "needed": r.table, "phase": phase,
+                                "outcome": val if kind == "err" else "number"},
+                               {"call": r.desc, "isotherm": "PointIsotherm(N2, bar, mmol/g)", "implementation": short(o),
+                                "expected": "ParameterError (or the accessor's CalculationError wrapper)"})
+            elif not (kind == "ok" and value_matches(val, r.vin, r.factor)):
+                groups.add(("iso-val", r.entry, phase), {"fn": "accessor-factor", "entry": r.entry, "phase": phase},
+                           {"call": r.desc, "isotherm": "PointIsotherm(N2, bar, mmol/g, per g)", "implementation": short(o),
+                            "expected": [float(frac(x) * r.factor) for x in r.vin]})
+            if phase == "fresh":
+                iso_first[id(r)] = o
+            elif not same_outcome(iso_first[id(r)], o):
+                groups.add(("iso-hist", r.entry), {"fn": "history", "entry": r.entry},
+                           {"call": r.desc, "first_answer": short(iso_first[id(r)]), "answer_after_history": short(o)})
+        groups.flush()
+    run_iso("fresh")
 
     values = [1.0, 0.37, -2.5, 0.0] if thorough else [1.0, 0.37]
     cases = []   # (line, impl_thunk, spec_value_or_None, key, bucket)
@@ -121,21 +490,32 @@ def run(ck):
                 spec = frac(v) * cx.scale_p(mf, uf) / cx.scale_p(mt, ut)
                 add(" ".join(["cP", tok(cx.psat), "T", qstr(v), mf, mt, tok(uf), tok(ut)]),
                     (lambda v=v, mf=mf, mt=mt, uf=uf, ut=ut, A=A, T=T: c_pressure(v, mf, mt, uf, ut, A, T)),
-                    spec, ("P", mf, uf, mt, ut), "pressure", (mf, uf) != (mt, ut))
+                    spec, ("P", cx.name, mf, uf, mt, ut) if cx.light else ("P", mf, uf, mt, ut), "pressure", (mf, uf) != (mt, ut))
         mats_all = MATS
         mats_q = MATS if thorough else [MATS[i] for i in sorted(rng.sample(range(len(MATS)), 5))]
-        for (bf, uf), (bt, ut) in itertools.product(LOAD, LOAD):
+        lpairs = list(itertools.product(LOAD, LOAD))
+        if cx.light:
+            # random-temperature contexts: a sample of the pairs, every one of the 12 constant leaves included
+            leaves = [((bf, rng.choice(list(LTABLE[bf]))), (bt, rng.choice(list(LTABLE[bt]))))
+                      for bf in LTABLE for bt in LTABLE if bf != bt]
+            lpairs = leaves + rng.sample(lpairs, ck.n(90, 400))
+        for (bf, uf), (bt, ut) in lpairs:
             fr = bf in ("fraction", "percent") or bt in ("fraction", "percent")
             mats = (mats_all if cx.name == "stub" and thorough else mats_q) if fr else [("mass", "g"), (None, None)]
             if not fr and cx.name != "stub":
                 mats = mats[:1]
+            if cx.light:
+                mats = [rng.choice(mats)]
             for (mb, mu) in mats:
                 v = vs[0] if len(vs) == 1 else rng.choice(vs)
                 spec = frac(v) * cx.scale_l(bf, uf, mb, mu) / cx.scale_l(bt, ut, mb, mu)
                 add(" ".join(["cL"] + cx.env_tokens() + [qstr(v), bf, bt, tok(uf), tok(ut), tok(mb), tok(mu)]),
                     (lambda v=v, bf=bf, bt=bt, uf=uf, ut=ut, mb=mb, mu=mu, A=A, T=T:
                      c_loading(v, bf, bt, uf, ut, A, T, mb, mu)),
-                    spec, ("L", bf, uf, bt, ut, mb, mu), "loading", (bf, uf) != (bt, ut))
+                    spec, ("L", cx.name, bf, uf, bt, ut, mb, mu) if cx.light else ("L", bf, uf, bt, ut, mb, mu), "loading",
+                    (bf, uf) != (bt, ut))
+        if cx.light:
+            continue
         for (bf, uf), (bt, ut) in itertools.product(MATS, MATS):
             v = vs[0]
             spec = frac(v) * cx.grams(bt, ut) / cx.grams(bf, uf)
@@ -207,15 +587,193 @@ def run(ck):
         add(" ".join(["cT", "5/1", tok(a[0]), tok(a[1])]), (lambda a=a: c_temperature(5.0, a[0], a[1])),
             None, ("Tbad", a), "malformed", False)
 
-    # ------------------------------------------------------------------ run implementation, model, compare
+    # ------------------------------------------------------------------ run the implementation on the enumeration
+    first = [call(c[1]) for c in cases]
+
+    # ------------------------------------------------------------------ HISTORY oracle, phase "after"
+    # blocks in shuffled order: [valid conversion of (a, b) through every entry point of its own table] [the same strings against
+    # every other table] [a valid conversion again: a refusal must not be remembered either], mixed with re-executions of earlier
+    # valid conversions (other adsorbates, temperatures, materials in between): same answer as the first time, and the SI factor
+    def recheck(i, before):
+        line, thunk, spec, key, bucket, nontriv = cases[i]
+        o = call(thunk)
+        ck.count(("again",) + tuple(key), nontrivial=False, bucket="history:after:re-executed:" + (o[0] if o[0] == "ok" else o[1]))
+        if not same_outcome(first[i], o) or (spec is not None and not (o[0] == "ok" and close(o[1], spec, rel=1e-11))):
+            groups.add(("again", key[0]), {"fn": "history", "entry": key[0], "case": [str(x) for x in key[1:]][:3]},
+                       {"request": line, "first_answer": short(first[i]), "answer_after_history": short(o),
+                        "expected_SI": None if spec is None else str(float(spec)), "preceded_by": before})
+
+    if c_unit is not None:
+        order = list(range(len(blocks)))
+        rng.shuffle(order)
+        last = None
+        for bi in order:
+            tx, a, b, own, foreign = blocks[bi]
+            for r in own:
+                o = call(r.thunk)
+                model_line(r, o)
+                judge(r, o, "after", before=last)
+                last = r.desc
+            fs = list(foreign)
+            rng.shuffle(fs)
+            pair_own = [r for r in own if r.meta == "pair"]
+            for r in fs:
+                # immediately before every foreign request: a valid conversion of exactly these two strings (a bounded memory
+                # of recent conversions is reached as well)
+                p = rng.choice(pair_own)
+                judge(p, call(p.thunk), "after", before=last)
+                o = call(r.thunk)
+                model_line(r, o)
+                judge(r, o, "after", before=p.desc)
+                last = r.desc
+            r = rng.choice(own)
+            judge(r, call(r.thunk), "after", before=fs[-1].desc if fs else None)
+            for _ in range(ck.n(3, 12)):
+                i = rng.randrange(len(cases))
+                recheck(i, last)
+            last = r.desc
+        for r in basis_rqs:
+            o = call(r.thunk)
+            model_line(r, o)
+            judge(r, o, "after", before=last)
+        groups.flush()
+
+    # ------------------------------------------------------------------ MATERIAL oracle: real pygaps.Material objects
+    A, M, T = cx.ads, cx.mat, cx.temp
+    mat_lines = []    # (line, outcome, desc, is_getprop)
+
+    def mat_spec(exp, v, bf, uf, bt, ut):
+        """SI value, or None when a needed property is missing (=> refusal)"""
+        g = {"mass": Fr(1), "volume": exp.get("density"), "molar": exp.get("molar_mass")}
+        if bf == bt:       # a change of unit alone needs no property of the material
+            return frac(v) * MTABLE[bt][ut] / MTABLE[bf][uf]
+        if g[bf] is None or g[bt] is None:
+            return None
+        return frac(v) * (MTABLE[bt][ut] * frac(g[bt])) / (MTABLE[bf][uf] * frac(g[bf]))
+
+    def mat_queries(m, ops, exp, hist, k):
+        need_leaves = [(bf, bt) for bf in MBASES for bt in MBASES]
+        qs = [((bf, rng.choice(list(MTABLE[bf]))), (bt, rng.choice(list(MTABLE[bt])))) for bf, bt in need_leaves]
+        qs += rng.sample(list(itertools.product(MATS, MATS)), k)
+        for (bf, uf), (bt, ut) in qs:
+            v = rng.choice([1.0, 0.37, 12.5])
+            o = call(lambda: c_material(v, bf, bt, uf, ut, m))
+            spec = mat_spec(exp, v, bf, uf, bt, ut) if (bf, uf) != (bt, ut) else frac(v)
+            desc = f"c_material({v}, {bf!r}, {bt!r}, {uf!r}, {ut!r}, m)  with  m = {hist}"
+            ck.count(("matobj", bf, uf, bt, ut, len(ops)), nontrivial=(bf, uf) != (bt, ut) and o[0] == "ok",
+                     bucket="material-object:" + (o[0] if o[0] == "ok" else o[1]))
+            mat_lines.append((" ".join(["cMo", qstr(v), bf, bt, uf, ut] + ops), o, desc, False))
+            if spec is not None:
+                if not (o[0] == "ok" and close(o[1], spec, rel=1e-11)):
+                    groups.add(("matobj", bf, bt), {"fn": "material-object", "case": [bf, bt]},
+                               {"call": desc, "implementation": short(o), "expected_SI": str(float(spec)),
+                                "properties_put_in": {a: float(b) for a, b in exp.items()}})
+            elif o[0] == "ok":
+                groups.add(("matobj-missing", bf, bt), {"fn": "material-object", "missing_property": True, "case": [bf, bt]},
+                           {"call": desc, "implementation": short(o), "expected": "refusal: the material has no " +
+                            ("density" if "volume" in (bf, bt) and exp.get("density") is None else "molar mass"),
+                            "properties_put_in": {a: float(b) for a, b in exp.items()}})
+
+    def mat_getprops(m, ops, exp, hist):
+        for key in ("density", "molar_mass", "pore_volume", "zz_missing"):
+            o = call(lambda: m.get_prop(key))
+            mat_lines.append((" ".join(["mG", key] + ops), o, f"m.get_prop({key!r})  with  m = {hist}", True))
+            ck.count(("matprop", key, len(ops)), nontrivial=False, bucket="material-object:get_prop:" + (o[0] if o[0] == "ok" else o[1]))
+            want = exp.get(key)
+            okk = (o[0] == "ok" and ((o[1] is None and want is None) or (o[1] is not None and want is not None and frac(o[1]) == frac(want)))) \
+                if (want is not None or key in ("density", "molar_mass")) else (o == ("err", "param"))
+            if not okk:
+                groups.add(("matprop", key), {"fn": "material-object", "get_prop": key},
+                           {"call": f"m.get_prop({key!r})  with  m = {hist}", "implementation": short(o),
+                            "expected": "ParameterError" if want is None and key not in ("density", "molar_mass") else (None if want is None else float(want))})
+        for key, got in (("density", call(lambda: m.density)), ("molar_mass", call(lambda: m.molar_mass))):
+            want = exp.get(key)
+            if not (got[0] == "ok" and ((got[1] is None and want is None) or (got[1] is not None and want is not None and frac(got[1]) == frac(want)))):
+                groups.add(("matattr", key), {"fn": "material-object", "getter": key},
+                           {"call": f"m.{key}  with  m = {hist}", "implementation": short(got), "expected": None if want is None else float(want)})
+
+    def rnd_pos(lo, hi):
+        x = rng.uniform(lo, hi)
+        return rng.choice([x, round(x, 2), int(x) + 1])
+
+    def one_material(im):
+        exp, ops, hist = {}, [], []
+        kw = {}
+        if rng.random() < 0.7:
+            kw["density"] = rnd_pos(0.2, 9.0)
+        if rng.random() < 0.7:
+            kw["molar_mass"] = rnd_pos(20.0, 2000.0)
+        if rng.random() < 0.5:
+            kw["pore_volume"] = rnd_pos(0.1, 2.0)
+        items = list(kw.items())
+        rng.shuffle(items)
+        kw = dict(items)
+        m = pg.Material("pgv_m", store=False, **kw)      # every object has the same name (Material hashes / compares by name)
+        hist.append("Material('pgv_m'" + "".join(f", {k}={v!r}" for k, v in kw.items()) + ")")
+        for k, v in kw.items():
+            exp[k] = v
+            ops.append(f"K:{k}:{qstr(v)}")
+
+        def setter(key, val):
+            setattr(m, key, val)
+            hist.append(f"m.{key} = {val!r}")
+            ops.append(f"S:{key}:{'~' if val is None else qstr(val)}")
+            if val:
+                exp[key] = float(val)
+        for _ in range(rng.randrange(0, 4)):
+            key = rng.choice(["density", "molar_mass"])
+            setter(key, rng.choice([None, 0, 0.0, rnd_pos(0.2, 9.0) if key == "density" else rnd_pos(20.0, 2000.0)]))
+        if rng.random() < 0.3:
+            m = pg.Material(**m.to_dict())
+            hist.append("m = Material(**m.to_dict())")
+        h1 = "; ".join(hist)
+        mat_getprops(m, list(ops), dict(exp), h1)
+        mat_queries(m, list(ops), dict(exp), h1, ck.n(6, 40))
+        # the object changes between conversions: the converters must read it again
+        key = rng.choice(["density", "molar_mass"])
+        setter(key, rnd_pos(0.2, 9.0) if key == "density" else rnd_pos(20.0, 2000.0))
+        h2 = "; ".join(hist)
+        mat_getprops(m, list(ops), dict(exp), h2)
+        mat_queries(m, list(ops), dict(exp), h2, ck.n(4, 20))
+
+    for im in range(ck.n(10, 60)):
+        try:
+            one_material(im)
+        except Exception as e:  # noqa  building / changing / exporting a Material raised: a failing input, not a crash of the check
+            groups.add(("matobj-raised", type(e).__name__), {"fn": "material-object", "raised": type(e).__name__},
+                       {"what": f"{type(e).__name__}: {e}"[:300]})
+    groups.flush()
+
+    run_iso("after")
+
+    # ------------------------------------------------------------------ model replies, compare
+    all_lines = [c[0] for c in cases] + [x[0] for x in xlines] + [x[0] for x in mat_lines]
     replies = None
     try:
-        replies = ck.drive("Units", [c[0] for c in cases])
+        replies = ck.drive("Units", all_lines)
     except Exception as e:  # driver unusable (e.g. Gen broke the model): keep going with the SI oracle alone
         ck.broken.append({"step": "driver Units", "what": str(e)[:800]})
     n_dis = 0
+
+    def disagree(line, o, reply):
+        nonlocal n_dis
+        n_dis += 1
+        if n_dis <= 3 or (n_dis <= 12 and line.split()[0] in ("cU", "cS", "cMo", "mG")):
+            ck.broken.append({"step": "correspondence Model/Units.lean", "what": {"request": line, "fn": line.split()[0], "impl": short(o), "model": reply}})
+
+    def agrees(reply, o, vin=None):
+        r = reply.split()
+        kind, val = o
+        if r[0] == "ok" and kind == "ok":
+            if r[1] == "~":
+                return val is None
+            if val is None:
+                return False
+            return value_matches(val, vin, Fr(r[1])) if vin is not None else close(val, Fr(r[1]), rel=1e-11)
+        return r[0] == "err" and kind == "err" and _same_err(r[1], val)
+
     for i, (line, thunk, spec, key, bucket, nontriv) in enumerate(cases):
-        kind, val = call(thunk)
+        kind, val = first[i]
         ck.count(key, nontrivial=nontriv and kind == "ok", bucket=bucket + ":" + (kind if kind == "ok" else val),
                  sample={"request": line, "implementation": [kind, str(val)], "model": replies[i] if replies else None}
                  if i % 997 == 0 else None)
@@ -227,14 +785,8 @@ def run(ck):
                 continue
         # --- correspondence with the Lean model
         if replies is not None:
-            r = replies[i].split()
-            agree = (r[0] == "ok" and kind == "ok" and close(val, Fr(r[1]), rel=1e-11)) or \
-                    (r[0] == "err" and kind == "err" and _same_err(r[1], val))
-            if not agree:
-                n_dis += 1
-                sig = {"fn": key[0], "impl": [kind, str(val)], "model": replies[i]}
-                if n_dis <= 3:
-                    ck.broken.append({"step": "correspondence Model/Units.lean", "what": {"request": line, **sig}})
+            if not agrees(replies[i], first[i]):
+                disagree(line, first[i], replies[i])
         # --- refusal clause, decided without the model: an invalid needed unit/mode/basis => ParameterError
         if spec is None:
             cause = _needs_refusal(key)
@@ -243,27 +795,47 @@ def run(ck):
             if cause and not (kind == "err" and (val == "param" or lacking)):
                 ck.fail_case({"fn": key[0], "invalid": cause, "outcome": val if kind == "err" else "number"},
                              {"request": line, "implementation": [kind, str(val)], "expected": "ParameterError"})
+    if replies is not None:
+        base = len(cases)
+        for j, (line, outs, valid, r) in enumerate(xlines):
+            for o in outs:       # the same request at every moment it was executed
+                # the line carries the value 1: the model's reply is the factor (or the refusal); cS: the value itself
+                if not agrees(replies[base + j], o, vin=r.vin if valid and r.entry != "saturation_pressure" else None):
+                    disagree(line + "   # " + r.desc, o, replies[base + j])
+        base += len(xlines)
+        for j, (line, o, desc, isprop) in enumerate(mat_lines):
+            if not agrees(replies[base + j], o):
+                disagree(line + "   # " + desc, o, replies[base + j])
 
     # ------------------------------------------------------------------ arrays map pointwise, index preserved
+    cx = contexts[0]
     arr = np.array([0.0, 1.5, 3.25, 1e6])
     ser = pd.Series(arr, index=[7, 3, 5, 11])
     for (mf, uf), (mt, ut) in rng.sample(list(itertools.product(PRESS, PRESS)), ck.n(12, 40)):
-        a1 = c_pressure(arr, mf, mt, uf, ut, stub, 77.0)
-        s1 = c_pressure(ser, mf, mt, uf, ut, stub, 77.0)
-        z1 = c_pressure(np.float64(1.5), mf, mt, uf, ut, stub, 77.0)
+        ck.count(("arr", "P", mf, uf, mt, ut), bucket="array")
+        try:
+            a1 = c_pressure(arr, mf, mt, uf, ut, stub, 77.0)
+            s1 = c_pressure(ser, mf, mt, uf, ut, stub, 77.0)
+            z1 = c_pressure(np.float64(1.5), mf, mt, uf, ut, stub, 77.0)
+        except Exception as e:  # noqa  a valid conversion of an array refused: a failing input, not a crash of the check
+            ck.fail_case({"fn": "P-array", "case": [mf, uf, mt, ut]}, {"raised": f"{type(e).__name__}: {e}"[:300]})
+            continue
         exp = [frac(x) * cx.scale_p(mf, uf) / cx.scale_p(mt, ut) for x in arr]
         okk = all(close(x, e) for x, e in zip(np.asarray(a1, dtype=float), exp)) and list(getattr(s1, "index", [])) == [7, 3, 5, 11] \
             and all(close(x, e) for x, e in zip(s1.values, exp)) and close(z1, exp[1])
-        ck.count(("arr", "P", mf, uf, mt, ut), bucket="array")
         if not okk:
             ck.fail_case({"fn": "P-array", "case": [mf, uf, mt, ut]}, {"array": str(a1), "series": str(s1)})
     for (bf, uf), (bt, ut) in rng.sample(list(itertools.product(LOAD, LOAD)), ck.n(16, 60)):
-        a1 = c_loading(arr, bf, bt, uf, ut, stub, 77.0, "mass", "g")
-        s1 = c_loading(ser, bf, bt, uf, ut, stub, 77.0, "mass", "g")
+        ck.count(("arr", "L", bf, uf, bt, ut), bucket="array")
+        try:
+            a1 = c_loading(arr, bf, bt, uf, ut, stub, 77.0, "mass", "g")
+            s1 = c_loading(ser, bf, bt, uf, ut, stub, 77.0, "mass", "g")
+        except Exception as e:  # noqa
+            ck.fail_case({"fn": "L-array", "case": [bf, uf, bt, ut]}, {"raised": f"{type(e).__name__}: {e}"[:300]})
+            continue
         exp = [frac(x) * cx.scale_l(bf, uf, "mass", "g") / cx.scale_l(bt, ut, "mass", "g") for x in arr]
         okk = all(close(x, e) for x, e in zip(np.asarray(a1, dtype=float), exp)) and list(getattr(s1, "index", [])) == [7, 3, 5, 11] \
             and all(close(x, e) for x, e in zip(s1.values, exp))
-        ck.count(("arr", "L", bf, uf, bt, ut), bucket="array")
         if not okk:
             ck.fail_case({"fn": "L-array", "case": [bf, uf, bt, ut]}, {"array": str(a1), "series": str(s1)})
 
@@ -281,13 +853,25 @@ def run(ck):
     ck.cov["rule"] = ("every ordered pair of the 10 pressure, 27 loading (x material representations when fraction/percent is "
                       "involved; quick tier: 5 of the 19 sampled for non-stub adsorbates) and 19 material representations, "
                       "temperature spellings, a malformed stream (None/''/unknown/foreign-table tokens in every argument position), "
-                      "numpy/pandas arrays; non-trivial = accepted conversion between two different representations; distinct = "
-                      "distinct (function, from, to, material representation)")
+                      "numpy/pandas arrays; real adsorbates at fixed and at random temperatures between triple and critical point "
+                      "(sampled pairs, all 12 constant leaves) with constants from the harness's own CoolProp states; HISTORY: every "
+                      "ordered pair of units of each of the 4 unit tables against every other table through c_unit / c_pressure / "
+                      "c_loading / c_material / saturation_pressure / isotherm accessors, in a fresh process state and again after "
+                      "the valid conversion of the same pair and after the whole enumeration, every mode/basis name against the "
+                      "other two mode tables, re-execution of earlier conversions (same answer, SI factor); MATERIAL: real "
+                      "pygaps.Material objects with random histories of keywords/setters/to_dict through c_material and get_prop; "
+                      "non-trivial = accepted conversion between two different representations; distinct = distinct (function, "
+                      "from, to, material representation[, context])")
     ck.cov["correspondence_disagreements"] = n_dis
+    ck.cov["history"] = {"unit_pairs": len(blocks), "requests_per_phase_foreign": sum(len(b[4]) for b in blocks) + len(basis_rqs),
+                         "isotherm_accessor_requests": len(iso_rqs), "material_object_requests": len(mat_lines),
+                         "random_temperature_contexts": [c.name for c in contexts if c.light]}
     ck.assumptions += [
         "thermodynamic consistency rho = rho_bar*M of the adsorbate constants is measured (CoolProp), not proved",
         "IEEE rounding: implementation compared with exact rational model/spec at rel. 1e-11",
         "mmHg = torr = 133.322 Pa and 1 cm3(STP) = 4.461e-5 mol are the library's documented conventions",
+        "history independence is proved of the model (a function of the request) and searched on the code by the history oracle; "
+        "state outside this process (files, environment) is not varied",
     ]
 
 
